@@ -737,24 +737,25 @@ impl BitField {
         }
     }
 
-    fn min(&self, endianness: Endianness) -> i64 {
+    // `min`/`max` are computed in `i128` so that every field width up to 64 bits is
+    // representable (a full width `u64` field needs `2^64 - 1`, a full width `i64` field `-2^63`).
+    fn min(&self, endianness: Endianness) -> i128 {
         if self.ty.is_signed() {
             let lsb = self.lsb(endianness);
             let msb = self.msb(endianness);
-            let value = 1 << (msb - lsb) as i64;
-            -value
+            -(1_i128 << (msb - lsb))
         } else {
             0
         }
     }
 
-    fn max(&self, endianness: Endianness) -> i64 {
+    fn max(&self, endianness: Endianness) -> i128 {
         let lsb = self.lsb(endianness);
         let msb = self.msb(endianness);
         if self.ty.is_signed() {
-            (1 << (msb - lsb)) - 1
+            (1_i128 << (msb - lsb)) - 1
         } else {
-            (1 << (msb - lsb + 1)) - 1
+            (1_i128 << (msb - lsb + 1)) - 1
         }
     }
 
